@@ -1259,6 +1259,15 @@ func writeEvidence(spec *CheckSpec, res *CheckResult, wall time.Duration, nviol 
 
 // crossBuild compares, for differential batches, the per-run log hashes reported
 // by each variant with those of the base variant.
+// modeTag names the mode in a cross-build signature when it is not one of the two general ones, so
+// that a finding known in a special-purpose mode never hides a difference met anywhere else.
+func modeTag(mode string) string {
+	if mode == "conf" || mode == "nort" || mode == "" {
+		return ""
+	}
+	return ":" + mode
+}
+
 func crossBuild(spec *CheckSpec, res *CheckResult) {
 	for _, b := range spec.Batches {
 		if b.DiffBase == "" {
@@ -1292,7 +1301,7 @@ func crossBuild(spec *CheckSpec, res *CheckResult) {
 				break
 			}
 			res.Found = append(res.Found, Found{Batch: b, Crash: true, Report: RunReport{Idx: idx, Violation: &Violation{Property: spec.Property, Rule: "XBUILD",
-				Signature: "XBUILD:log-differs:" + v + "-vs-" + b.DiffBase, Message: fmt.Sprintf("run %d: event-log hash of build %q differs from build %q", idx, v, b.DiffBase)}}})
+				Signature: "XBUILD:log-differs:" + v + "-vs-" + b.DiffBase + modeTag(b.Mode), Message: fmt.Sprintf("run %d: event-log hash of build %q differs from build %q", idx, v, b.DiffBase)}}})
 		}
 	}
 }
